@@ -266,6 +266,7 @@ func (c *c15) plainFraming() {
 		var kw, nl *fmtCall
 		kwText := ""
 		var elemCall ssa.CallInstruction
+		var elemEff c15EffCall
 		for i := range calls {
 			fc := &calls[i]
 			if !l.Blocks[fc.Call.Block()] {
@@ -289,7 +290,10 @@ func (c *c15) plainFraming() {
 			for _, in := range b.Instrs {
 				if ci, ok := in.(ssa.CallInstruction); ok {
 					if cal := ci.Common().StaticCallee(); cal != nil && InRepo(cal) {
+						// the record writer, called directly or through a thin local closure
+						// (`body := func() error { return wr.writeX(x) }; ..; body()`)
 						elemCall = ci
+						elemEff, _ = c15EffectiveCall(ci)
 					}
 				}
 			}
@@ -299,15 +303,24 @@ func (c *c15) plainFraming() {
 			r.Bad(cons, p.Pos(firstBlockPos(l.Header)), fmt.Sprintf("the %s section does not consist of keyword, record and line break (keyword=%v record=%v newline=%v)", field, kw != nil, elemCall != nil, nl != nil))
 			continue
 		}
+		if elemEff.Callee == nil || len(elemEff.Args) == 0 {
+			r.Undecided(cons, p.Pos(elemCall.Pos()), fmt.Sprintf("the record of the %s section is written by a call that is neither a record writer nor a local closure that only forwards to one", field))
+			continue
+		}
 		k, isStr := kwText, true
 		okKw := isStr && strings.HasSuffix(k, " ") && !strings.Contains(strings.TrimSuffix(k, " "), " ") && len(k) > 1
 		okOrder := instrBefore(kw.Call, elemCall) && instrBefore(elemCall, nl.Call)
-		at := wtm.Of(elemCall.Common().Args[len(elemCall.Common().Args)-1])
+		at := wtm.Of(elemEff.Args[len(elemEff.Args)-1]) // a nil operand (not traceable) gives the term `unknown`
 		okElem := at.Op == "elem" && at.Args[0].Op == "field" && at.Args[0].Name == field
+		// .. the element at the loop's own counter (0, 1, .., len-1), of the list of the genome being written
+		if okElem {
+			cnt, _, counted := countsUp(l)
+			okElem = counted && len(at.Args) > 1 && at.Args[1].V == cnt && isParamIdx(at.Args[0].Args[0], 1)
+		}
 		r.Check(okKw && okOrder && okElem, cons, p.Pos(kw.Call.Pos()),
-			fmt.Sprintf("each element of %s is written as %q + %s + newline", field, k, elemCall.Common().StaticCallee().Name()),
+			fmt.Sprintf("each element of %s is written as %q + %s + newline", field, k, elemEff.Callee.Name()),
 			fmt.Sprintf("the %s section is not `keyword blank record newline` per element in that order (keyword %q ok=%v, order ok=%v, record is the current element=%v)", field, k, okKw, okOrder, okElem))
-		wsec = append(wsec, section{key: strings.TrimSuffix(k, " "), fn: elemCall.Common().StaticCallee().Name(), field: field, pos: kw.Call.Pos(), order: li})
+		wsec = append(wsec, section{key: strings.TrimSuffix(k, " "), fn: elemEff.Callee.Name(), field: field, pos: kw.Call.Pos(), order: li})
 	}
 	r.Floor("sections of the plain genome", len(wsec), 3)
 	// section order: traits before nodes before genes (ids are resolved against what was read before)
@@ -1016,15 +1029,25 @@ func (c *c15) activationNames() {
 	for _, name := range []string{"Register", "RegisterModule"} {
 		for _, ci := range CallsTo(factory, p.Func(PkgM, "NodeActivatorsFactory."+name)) {
 			a := ci.Common().Args
-			k, ok1 := a[1].(*ssa.Const)
-			s, ok2 := constString(a[3])
-			if !ok1 || !ok2 || k.Value == nil {
-				r.Undecided("registration", p.Pos(ci.Pos()), "a registration whose type or name is not constant")
-				continue
+			// one registration per execution of the call: the call itself, or - when it sits in a loop over a
+			// literal table of (type, function, name) records - one per record of the table
+			rows := [][]ssa.Value{{a[1], a[3]}}
+			if _, isC := a[1].(*ssa.Const); !isC {
+				if tab, isTab := c15RecordTableRows(ci, []ssa.Value{a[1], a[3]}); isTab {
+					rows = tab
+				}
 			}
-			n++
-			names[s]++
-			typs[k.Value.ExactString()]++
+			for _, row := range rows {
+				k, ok1 := row[0].(*ssa.Const)
+				s, ok2 := constString(row[1])
+				if !ok1 || !ok2 || k.Value == nil {
+					r.Undecided("registration", p.Pos(ci.Pos()), "a registration whose type or name is not constant")
+					continue
+				}
+				n++
+				names[s]++
+				typs[k.Value.ExactString()]++
+			}
 		}
 	}
 	var dup []string
